@@ -13,10 +13,13 @@ def rand_label(rng, w):
     if w == '8f': return struct.pack('<d', rng.choice([0.0, 1.5, -2.25, 1e100, 3.0e-50, float(rng.randint(-50, 50))]))
     return bytes(rng.randrange(256) for _ in range(k)) if rng.random() < 0.5 else (rng.randrange(4)).to_bytes(k, 'little')
 
+WIDE_VERTICES = [0, 1, 254, 255, 256, 257, 510, 511, 512, 767, 768, 999]
 def bin_records(rng, w, nrec, nmax=6):
     recs = []
+    wide = rng.random() < 0.12          # vertex numbers whose low byte is 0xFF / 0x00 (a byte that looks like EOF or like a terminator)
     for _ in range(nrec):
         i = rng.randrange(nmax); j = rng.choice([i, rng.randrange(nmax), rng.randrange(nmax)])
+        if wide: i = rng.choice(WIDE_VERTICES); j = rng.choice(WIDE_VERTICES + [i])
         recs.append(struct.pack('<II', i, j) + rand_label(rng, w))
     return recs
 
@@ -47,6 +50,10 @@ def binw_cases(rng, count):
                 t[3] = str((int(t[3]) * 0x0101010101010101 + int(t[3]) * 7) % (256 ** WIDTHS[w]) if rng.random() < 0.7 else rng.randrange(256 ** WIDTHS[w]) % (2 ** 62))
             if t: ops.append(' '.join(t))
         out.append('BINW %s %s %s : %s' % (cls, w, head.split()[2], ' ; '.join(ops)))
+    for _ in range(max(2, count // 40)):      # graphs whose vertex numbers contain 0xFF / 0x00 bytes (written and read back)
+        cls = rng.choice(['D', 'U']); w = rng.choice(['0', '1', '4'])
+        es = ['A %d %d %d 0' % (rng.choice(WIDE_VERTICES), rng.choice(WIDE_VERTICES), rng.randrange(4) if w != '0' else 0) for _ in range(rng.randint(1, 5))]
+        out.append('BINW %s %s 0 : RZ 1000 ; %s' % (cls, w, ' ; '.join(es)))
     return out
 
 WS = [b' ', b'\t', b'  ', b' \t ', b'\t\t']
